@@ -18,14 +18,6 @@ func statString(fi os.FileInfo) string {
 	return fmt.Sprintf("%d:%d:%d", st.Ino, fi.ModTime().UnixNano(), fi.Size())
 }
 
-func has(list []string, x string) bool {
-	for _, y := range list {
-		if x == y {
-			return true
-		}
-	}
-	return false
-}
 
 func (r *runner) wants(o string) bool { return has(r.job.Oracles, o) }
 
